@@ -296,6 +296,12 @@ def plan(tier):
     for d in range(1, depth + 1):
         for combo in itertools.product(alpha, repeat=d):
             seqs.append(("+".join(i["name"] for i in combo), b"".join(i["data"] for i in combo)))
+    extra = items.hostile_extra()
+    for e in extra:  # depth <= 2 with at least one of the extra hostile items
+        seqs.append((e["name"], e["data"]))
+        for a in alpha:
+            seqs.append((e["name"] + "+" + a["name"], e["data"] + a["data"]))
+            seqs.append((a["name"] + "+" + e["name"], a["data"] + e["data"]))
     for ch in core.chunks(seqs, 40 if tier == "quick" else 150):
         work.append(("items", ch, bound_items, None))
     if tier == "quick":
@@ -321,7 +327,8 @@ def plan(tier):
     for ch in core.chunks(short, 20 if tier == "quick" else 100):
         work.append(("bytesf", ch, 1, None))
     return work, {"depth": depth, "fault_bound": bound_items, "byte_len": lmax,
-                  "byte_len_with_fault": lfault, "alphabet": len(alpha)}
+                  "byte_len_with_fault": lfault, "alphabet": len(alpha),
+                  "extra_hostile_items_depth2": len(extra)}
 
 
 def run(tier, seed, t0):
